@@ -92,6 +92,20 @@ func TestC10Malformed(t *testing.T) {
 	for n := 0; n <= len(pl); n++ {
 		feed("payload-trunc", udpip(0, 0xffffffff, 68, 67, 17, 64, pl[:n]))
 	}
+	// short packets whose length fields agree with their length while the header length does not fit: every IHL, lengths around it
+	for ihl := 0; ihl < 16; ihl++ {
+		for _, l := range []int{20, 21, 24, 28, ihl*4 - 1, ihl * 4, ihl*4 + 1, 59, 60} {
+			if l < 1 || l > len(good) {
+				continue
+			}
+			b := append([]byte{}, good[:l]...)
+			b[0] = byte(0x40 | ihl)
+			if l >= 4 {
+				b[2], b[3] = byte(l>>8), byte(l)
+			}
+			feed("ihl-vs-length", b)
+		}
+	}
 	// every hardware address length
 	for hl := 0; hl < 256; hl++ {
 		m := cl.msg(1, 0, 0)
